@@ -14,7 +14,7 @@
    consumer i sees now; [own_view i log c0]: c0 transformed by i's own successful writes only. *)
 From Verif Require Import Common.Base C06.Model C06.Proofs C06.Proofs2 C06.TreeModel C06.TreeProofs.
 From Coq Require Import Permutation.
-From Verif Require Generated.C06FanCap Generated.C06CapWrap C06.Translated C06.SessionProofs C06.Clauses C06.ClausesProofs C06.ModelObs.
+From Verif Require Generated.C06FanCap Generated.C06CapWrap C06.Translated C06.SessionProofs C06.Clauses C06.ClausesProofs C06.ModelObs C06.CapProofs.
 
 (* ---- every consumer is invoked, exactly once, whatever earlier consumers returned -------------- *)
 (* The consumers called so far are a prefix of the fixed call order, one per LCall label ... *)
@@ -367,3 +367,30 @@ Theorem model_passes_checker_graph : forall sig tree,
   Clauses.prop_ok (Harness.CGraph sig false tree (Harness.canon_obs [0] ev) (final_obs s' ev)) = true.
 Proof. exact ModelObs.model_passes_graph_l. Qed.
 Print Assumptions model_passes_checker_graph.
+
+(* ---- the capability a consumer advertises, as built by the real constructors and options ------------- *)
+(* consumer.NewX(fn, opts...) (consumer/internal NewBaseImpl), processorhelper.NewX (default option first),
+   exporterhelper.NewX (MutatesData:true appended when batching is enabled): the LAST WithCapabilities wins. *)
+Theorem capability_last_option_wins :
+  (forall opts b, base_cap (opts ++ [b]) = b) /\ base_cap [] = false /\
+  (forall opts, base_cap opts = last opts false) /\
+  (forall user, proc_cap user = last user true) /\
+  (forall user, exp_cap user true = true) /\ (forall user, exp_cap user false = base_cap user).
+Proof. exact CapProofs.cap_construction_l. Qed.
+Print Assumptions capability_last_option_wins.
+
+(* ... and that is the capability the fan-out acts on: a consumer whose last option declares mutation holds its
+   payload alone, mutable, for every schedule, whatever earlier options said *)
+Theorem fanout_sees_built_capability : forall (optss : list (list bool)) ro_in c0 ls i j c,
+  let caps := map base_cap optss in
+  let m := run (new_fan caps) ro_in c0 ls in
+  last (nth i optss []) false = true -> i < List.length optss ->
+  In (i, c) (hs m) -> In (j, c) (hs m) -> j = i /\ cro (Model.get (st m) c) = false.
+Proof. exact CapProofs.built_consumer_isolated_l. Qed.
+Print Assumptions fanout_sees_built_capability.
+
+(* the clause checker's capability spec is the model's, for all three constructor kinds *)
+Theorem model_passes_checker_cap : forall kind sig opts batching,
+  Clauses.prop_ok (Harness.CBuilt kind sig opts batching (Harness.model_cap kind opts batching)) = true.
+Proof. exact ModelObs.model_passes_cap_l. Qed.
+Print Assumptions model_passes_checker_cap.
